@@ -155,9 +155,7 @@ Section Conform.
           inversion Em; subst. rewrite (H1 c0 y Ey). cbn [andb]. apply (IH cs ys Eys).
     - discriminate.
     - rewrite conf_unfold. rewrite (IHt s r H). apply orb_true_r.
-    - destruct (sfind E c') as [k|] eqn:Ef; [|discriminate].
-      destruct (sc_fields k) eqn:Efs; [|discriminate]. inversion H. rewrite conf_unfold.
-      rewrite String.eqb_refl, Ef, Efs. reflexivity.
+    - destruct (sfind E c') as [k|] eqn:Ef; discriminate.
   Qed.
 
   Definition conf_ok (d: pv) : Prop := forall t r, ref_dec E P d t = Ok r -> conf E r t = true.
@@ -194,9 +192,7 @@ Section Conform.
     (* fixed tuple / dataclass given a non-sequence / non-mapping *)
     all: try solve [ destruct ts; [inversion H; reflexivity | discriminate H] ].
     all: try solve [ destruct (sfind E c') as [k0|] eqn:Ef; [|discriminate H];
-                     first [ apply (dec_str_conf (SData c') _ _ H)
-                           | destruct (sc_fields k0) eqn:Efs; [|discriminate H]; inversion H; rewrite conf_unfold;
-                             rewrite String.eqb_refl, Ef, Efs; reflexivity ] ].
+                     first [ apply (dec_str_conf (SData c') _ _ H) | discriminate H ] ].
     (* homogeneous containers over list-like inputs *)
     all: try solve [ destruct (mapM _ _) as [l0|] eqn:Em; [|discriminate H]; cbn [bind] in H;
                      try (destruct (forallb hashable l0); [|discriminate H]); inversion H; rewrite conf_unfold;
